@@ -1,6 +1,8 @@
 import Firebolt.Properties.C10
 import Firebolt.Generated.Source
 import Firebolt.Expected.Source
+import Firebolt.Generated.Closure
+import Firebolt.Expected.Closure
 /-!
 # C12 — Message wire fidelity and compaction-safe record keys
 -/
@@ -83,5 +85,9 @@ theorem source_kpProcess : GeneratedSrc.kpProcess = ExpectedSrc.kpProcess := by 
 theorem source_exSendMessageFn : GeneratedSrc.exSendMessageFn = ExpectedSrc.exSendMessageFn := by rfl
 theorem source_exAckMessageFn : GeneratedSrc.exAckMessageFn = ExpectedSrc.exAckMessageFn := by rfl
 theorem source_exNewMessage : GeneratedSrc.exNewMessage = ExpectedSrc.exNewMessage := by rfl
+
+/-! ### influence closure: the pinned functions, and every function of the repository that writes a struct field or package
+variable they read, are unchanged (digests regenerated from /repo on every run; a difference names the functions) -/
+theorem closure_unchanged : GeneratedClo.C12 = ExpectedClo.C12 := by rfl
 
 end Firebolt.C12
